@@ -125,7 +125,10 @@ def load_fixtures():
 
 
 def factors(i, scheme):
-    """(ri, rs, ss) decimal strings of record id i; scheme 0 = constant, else varying"""
+    """(ri, rs, ss) decimal strings of record id i.  scheme 0 = all constant, 1..9 = all varying,
+    10 + b (b = 0..7) = bit 0: RS varies, bit 1: RI varies, bit 2: SS varies across records, the others
+    constant (uniform slopes with varying intercepts and so on)"""
+    const = ('-3142.00000', '2.50000', '0.00125')
     if scheme == 0:
         return '0.00000', '2.50000', '0.00125'
     h = (i * 2654435761 + scheme * 40503) & 0xffffffff
@@ -133,6 +136,9 @@ def factors(i, scheme):
     ri = ['0.00000', '-5272.00000', '-3142.00000', '0.60964', '-0.69352', '4095.00000'][(h >> 5) % 6]
     ssv = 1 + (h >> 9) % 997
     ss = ['%.5f' % (ssv / 800.0), '%.5e' % (ssv * 4.89549e-05), '%.3f' % (ssv * 0.651)][(h >> 20) % 3]
+    if scheme >= 10:
+        b = scheme - 10
+        return (ri if b & 2 else const[0]), (rs if b & 1 else const[1]), (ss if b & 4 else const[2])
     return ri, rs, ss
 
 
@@ -140,7 +146,23 @@ def slice_pixels(i):
     return (NPIX * i + np.arange(NPIX, dtype='<u2')).astype('<u2')
 
 
-def synthesise(f, order, scheme):
+GI_LINES = {'dyn_scan': 'Dynamic scan', 'diffusion': 'Diffusion  '}
+
+
+def override_general_info(head, gi):
+    """rewrite the 0/1 flags of the general-information block (independent of the image-definition columns)"""
+    import re
+    out = list(head)
+    for key, val in (gi or {}).items():
+        pat = re.compile(r'^(\.\s+' + GI_LINES[key] + r'\s*<0=no 1=yes> \?\s*:\s*)\d+\s*$')
+        hits = [k for k, l in enumerate(out) if pat.match(l)]
+        if len(hits) != 1:
+            raise RuntimeError(f'general-information line for {key} not found')
+        out[hits[0]] = pat.match(out[hits[0]]).group(1) + str(int(val))
+    return out
+
+
+def synthesise(f, order, scheme, gi=None):
     """PAR text + REC bytes with the records `order` (ids = positions in the fixture)"""
     lines = []
     rec = []
@@ -152,7 +174,7 @@ def synthesise(f, order, scheme):
         it[COL['ri']], it[COL['rs']], it[COL['ss']] = factors(i, scheme)
         lines.append('  ' + '  '.join(it))
         rec.append(slice_pixels(i).tobytes())
-    text = '\n'.join(f.head + lines + f.tail)
+    text = '\n'.join(override_general_info(f.head, gi) + lines + f.tail)
     return text, b''.join(rec)
 
 
@@ -230,11 +252,24 @@ def gen_cases(chk, fixtures):
                     for fp in ((False, True) if not big else (kind in ('reversed', 'slice_major'),)):
                         cases.append(dict(fixture=f.name, kind=kind, drop=drop, strict=strict, fp=fp,
                                           permit=True, scheme=1 + (len(cases) % 5)))
+        if not big:
+            # scale-factor patterns: RS / RI / SS independently constant or varying x {dv, fp}
+            for b in range(8):
+                for fp in (False, True):
+                    cases.append(dict(fixture=f.name, kind=('reversed', 'slice_major')[b % 2], drop=0, strict=bool(b & 1) != fp,
+                                      fp=fp, permit=True, scheme=10 + b))
+            # general-information flags toggled (they are independent of the image-definition columns)
+            for gi in ({'dyn_scan': 0}, {'dyn_scan': 1}, {'diffusion': 0}, {'diffusion': 1}, {'dyn_scan': 0, 'diffusion': 0}):
+                for kind in ('reversed', 'interleaved', 'vols_reversed'):
+                    cases.append(dict(fixture=f.name, kind=kind, drop=0, strict=True, fp=False, permit=True,
+                                      scheme=1, gi=gi))
+                cases.append(dict(fixture=f.name, kind='slices_odd_even', drop=0, strict=False, fp=True, permit=True,
+                                  scheme=12, gi=gi))
         # refusals: truncated without permit_truncated
         cases.append(dict(fixture=f.name, kind='reversed', drop=1, strict=True, fp=False, permit=False, scheme=1))
         cases.append(dict(fixture=f.name, kind='identity', drop=f.smax, strict=False, fp=False, permit=False, scheme=0))
     small = [f for f in fixtures if f.n <= 120]
-    nrand = chk.n(700, 9000)
+    nrand = chk.n(500, 9000)
     for k in range(nrand):
         f = rng.choice(small if rng.random() < 0.93 else fixtures)
         kind = rng.choice(['random', 'random', 'random_preserving', 'random_preserving', 'rotate'])
@@ -245,8 +280,11 @@ def gen_cases(chk, fixtures):
             drop = rng.randrange(1, min(f.n - f.smax, 2 * f.smax + 3))
         else:
             drop = rng.randrange(f.n - f.smax, f.n)      # less than one... up to a single record left
-        cases.append(dict(fixture=f.name, kind=kind, drop=drop, strict=rng.random() < 0.6, fp=rng.random() < 0.5,
-                          permit=rng.random() < 0.93, scheme=rng.randrange(0, 9), pseed=rng.randrange(1 << 30)))
+        c = dict(fixture=f.name, kind=kind, drop=drop, strict=rng.random() < 0.6, fp=rng.random() < 0.5,
+                 permit=rng.random() < 0.93, scheme=rng.randrange(0, 18), pseed=rng.randrange(1 << 30))
+        if rng.random() < 0.25:
+            c['gi'] = {rng.choice(['dyn_scan', 'diffusion']): rng.randrange(2)}
+        cases.append(c)
     return cases
 
 
@@ -481,7 +519,7 @@ def eval_case(chk, case, fx, ref_cache):
     f = fx[case['fixture']]
     order = case_order(case, f)
     present = sorted(order)
-    text, rec = synthesise(f, order, case['scheme'])
+    text, rec = synthesise(f, order, case['scheme'], case.get('gi'))
     o = impl_load(text, rec, case['strict'], case['permit'], case['fp'])
     mi = model_inputs(text, order)
     info = {'order': order, 'present': present}
@@ -495,11 +533,11 @@ def eval_case(chk, case, fx, ref_cache):
 
 def reference(case, fx, ref_cache):
     """the un-permuted load of the same records with the same options"""
-    key = (case['fixture'], case['drop'], case['strict'], case['fp'], case['scheme'])
+    key = (case['fixture'], case['drop'], case['strict'], case['fp'], case['scheme'], tuple(sorted((case.get('gi') or {}).items())))
     if key not in ref_cache:
         f = fx[case['fixture']]
         ids = list(range(f.n - case['drop']))
-        text, rec = synthesise(f, ids, case['scheme'])
+        text, rec = synthesise(f, ids, case['scheme'], case.get('gi'))
         ref_cache[key] = impl_load(text, rec, case['strict'], True, case['fp'])
     return ref_cache[key]
 
@@ -540,6 +578,8 @@ def predicates(case, o, info, f, ref):
 
 def describe(case, info=None):
     d = {k: case[k] for k in ('fixture', 'kind', 'drop', 'strict', 'fp', 'permit', 'scheme')}
+    if case.get('gi'):
+        d['gi'] = case['gi']
     if info is not None:
         d['order'] = info['order']
     return d
@@ -551,7 +591,8 @@ def run(chk: Check):
     chk.rule = ('every multi-volume PAR fixture of nibabel/tests/data (multi-echo, multi-dynamic, multi-type, DTI, ASL) '
                 're-synthesised with 2x3 slices holding 6*id+(0..5) and per-record scale factors; seed-independent core: '
                 'fixture x {identity, reversed, interleaved, volume-major, slice-major, odd/even slices, volumes reversed} x '
-                'dropped tail {0, 1, half a volume, more than a volume} x strict_sort x {dv, fp}, plus refusals without '
+                'dropped tail {0, 1, half a volume, more than a volume} x strict_sort x {dv, fp}; RS/RI/SS each constant or '
+                'varying (8 patterns) x {dv, fp}; general-information flags dyn_scan / diffusion toggled 0/1; refusals without '
                 'permit_truncated; random tail: random / order-preserving / rotated permutations with random dropped tails; '
                 'a case is distinct by (fixture, record order, drop, strict, scaling, permit, factor scheme) and non-trivial '
                 'when the order is not the recorded one or a tail is dropped')
@@ -633,7 +674,8 @@ def run(chk: Check):
     for ci, (case, o, mi, info) in enumerate(evald):
         f = fx[case['fixture']]
         nontriv = info['order'] != list(range(f.n)) or case['drop'] > 0
-        chk.count(key=(case['fixture'], tuple(info['order']), case['strict'], case['fp'], case['permit'], case['scheme'])
+        chk.count(key=(case['fixture'], tuple(info['order']), case['strict'], case['fp'], case['permit'], case['scheme'],
+                       tuple(sorted((case.get('gi') or {}).items())))
                   if nontriv else None,
                   tag='kind:' + case['kind'],
                   sample=describe(case) if ci in sample_at else None)
@@ -641,6 +683,10 @@ def run(chk: Check):
         chk.tagc('scaling:' + ('fp' if case['fp'] else 'dv'))
         chk.tagc('drop:' + ('0' if case['drop'] == 0 else '<1vol' if case['drop'] < f.smax else '>=1vol'))
         chk.tagc('fixture:' + case['fixture'])
+        chk.tagc('factors:' + ('all-constant' if case['scheme'] == 0 else 'all-varying' if case['scheme'] < 10 else
+                               'RS%s/RI%s/SS%s' % tuple('~' if (case['scheme'] - 10) & m else '=' for m in (1, 2, 4))))
+        if case.get('gi'):
+            chk.tagc('general_info:' + ','.join(f'{k}={v}' for k, v in sorted(case['gi'].items())))
         chk.tagc('claim:' + ('strict/distinct-keys' if case['strict'] and info['distinct_keys'] else
                              'strict/tied-keys(correspondence only)' if case['strict'] else
                              'lax/order-preserving' if info['preserving'] else 'lax/reordered(correspondence only)'))
